@@ -1,6 +1,7 @@
 #!/usr/bin/env python3
 import json,sys
 pid=sys.argv[1]
+k0=int(sys.argv[2]) if len(sys.argv)>2 else 1
 for l in open('/verif/properties.jsonl'):
     p=json.loads(l)
     if p['id']==pid: break
@@ -29,7 +30,7 @@ PRACTICALITIES (the sandbox is offline)
   e.g. ./integrations has large end-to-end tests (streamer_test.go, batcher_test.go) with helpers you can reuse in a demo test placed in that package. Packages under ./tick, ./alert, ./auth, ./udf/agent, ./models link without the stub.
 - Plain `go` in the worktree works as is (do not set GOFLAGS/GOPROXY; no network is available and nothing can be downloaded).
 - Keep builds targeted (one package at a time); the machine is shared.
-- Do not commit. For each change k=1..3: start from a clean tree (git -C {wt} checkout -- . && git -C {wt} clean -fdq), make the source change, save it with  git -C {wt} diff > {out}/change<k>.diff  (source change ONLY, no test files in the diff), and save the demo test file(s) as {out}/change<k>_demo/<path relative to repo root>. Verify: demo fails with the diff applied, passes without it; (a) and (b) hold with the diff applied.
+- Do not commit, and never run git stash, git reset, git branch/checkout of other revisions, or git worktree commands: the git directory is shared with other engineers. For each change k={k0}..{k0+2} (use exactly these numbers in the file names): start from a clean tree (git -C {wt} checkout -- . && git -C {wt} clean -fdq), make the source change, save it with  git -C {wt} diff > {out}/change<k>.diff  (source change ONLY, no test files in the diff), and save the demo test file(s) as {out}/change<k>_demo/<path relative to repo root>. Verify: demo fails with the diff applied, passes without it; (a) and (b) hold with the diff applied.
 - Leave the worktree clean at the end (git checkout -- . ; git clean -fdq).
 
 FINAL ANSWER: for each change: file of the diff, one-paragraph description (what was changed, why it breaks the property, what it needs to manifest), the demo path and the exact command to run it, and the observed fail/pass outputs (short). If you could only produce fewer than three solid changes, say so; quality over quantity.""")
